@@ -54,7 +54,7 @@ def align(script_lines, out_lines):
                         st.calls = int(l.split()[1])
                     elif l.startswith("X "):
                         t = l.split()
-                        st.x = {"fds": int(t[2]), "live": int(t[4])}
+                        st.x = {"fds": int(t[2]), "live": int(t[4]), "allocs": int(t[6]) if len(t) > 6 else 0}
                     else:
                         st.log.append(l[2:])
                     oi += 1
@@ -80,7 +80,7 @@ def align(script_lines, out_lines):
         elif st.op == "live":
             if oi < n and out_lines[oi].startswith("X "):
                 t = out_lines[oi].split()
-                st.x = {"fds": int(t[2]), "live": int(t[4])}
+                st.x = {"fds": int(t[2]), "live": int(t[4]), "allocs": int(t[6]) if len(t) > 6 else 0}
                 oi += 1
     return steps
 
@@ -1089,12 +1089,14 @@ def standard_main(rep, cases=None, monitors=(), crash_monitors=None, fault_monit
     vlib.conclude_proofs(rep, found)
 
 
-def run_cases_known(rep, exe_impl, exe_model, cases, monitors, known):
+def run_cases_known(rep, exe_impl, exe_model, cases, monitors, known, shards=None):
     """run_cases, but a monitor failure that matches an open known finding is
     reported as KNOWN-FINDING and the remaining cases are still judged"""
     if known is None:
         return run_cases(rep, exe_impl, exe_model, cases, monitors)
-    impl, model, problems = vlib.correspond(exe_impl, exe_model, "world", [(c, s) for c, s, _ in cases], sandbox=True)
+    impl, model, problems = vlib.correspond(exe_impl, exe_model, "world", [(c, s) for c, s, _ in cases], sandbox=True, shards=shards)
+    if shards:
+        problems = []      # one process per case: a crashed case is judged by the monitors (no result), not as a driver problem
     found = False
     validated = 0
     diverged = []
@@ -1209,3 +1211,24 @@ def mon_position_not_ahead(steps, meta):
 
 
 MONITORS["position_not_ahead"] = mon_position_not_ahead
+
+
+def alloc_fault_cases(exe_impl, tier, seed=1, only=None):
+    """one case per allocation of the operation under test in each scenario family: that allocation fails (ENOMEM).
+    Implementation only: the model does not allocate; the monitors judge the outcome."""
+    cases = []
+    for sc in wc.scenarios(tier):
+        if only and sc["name"] not in only:
+            continue
+        base = wc.scenario_script(sc).split("\n")
+        impl, _, _ = vlib.correspond(exe_impl, None, "world", [("probe", "\n".join(base))], sandbox=True)
+        steps = align(base, impl.get("probe") or [])
+        npre = len([l for l in sc["pre"] if l.strip()])
+        ops = [st for i, st in enumerate(steps) if i >= npre and st.op in HANDLER_OPS and st.x][:len(sc["ops"])]
+        if not ops:
+            continue
+        n = ops[0].x.get("allocs", 0)
+        for k in range(n):
+            script = wc.scenario_script(sc, "oracle afail %d" % k)
+            cases.append(("%s@alloc%d" % (sc["name"], k), script, {"scenario": sc["name"], "k": k, "call": "malloc", "errno": "ENOMEM", "callline": "allocation %d" % k, "phase": "alloc"}))
+    return cases
